@@ -278,6 +278,11 @@ pub fn as_rust_type(node_type: &str, doc: &RustDocument) -> RustFieldType {
         return user_type(node_type, namespace, doc);
     }
 
+    // a name without a prefix in a schema whose default namespace is its target namespace is one of its own types
+    if namespace.is_none() && doc.unprefixed_names_are_own() {
+        return user_type(node_type, namespace, doc);
+    }
+
     match node_type {
         "byte" => RustFieldType::I8,
         "string" | "normalizedString" | "base64Binary" | "hexBinary" | "anyURI" | "date" | "dateTime" | "time"
